@@ -858,15 +858,22 @@ def static_scan(res):
     res.hist('static_scan', 'ast_nodes', n)
 
 
-def same_name_classes(res, rng, tier):
-    """two or more circuits whose transpiled behavioural classes have the SAME __name__ (`Stage`, defined locally in different
+def class_families(res, rng, tier):
+    for fam, (variants, equal) in DS.FAMILIES.items():
+        same_name_classes(res, rng, tier, fam, sorted(variants), equal)
+
+
+def same_name_classes(res, rng, tier, fam, variants, equal):
+    """family 'same-name classes': two or more circuits whose transpiled behavioural classes have the SAME __name__ (`Stage`, defined locally in different
     builder functions) but different method bodies, plus a control pair with identical source.  Oracle: whatever was generated
     before in this process, in whatever order, through one generator or fresh ones, each circuit's text equals the text
     obtained for that circuit ALONE in a fresh interpreter (subprocess), and describes its own behaviour (real simulator vs
-    the Lean Verilog semantics on the emitted text)."""
+    the Lean Verilog semantics on the emitted text).
+    family 'shared identifier names': DIFFERENT behavioural classes (Saturate/Scale store constructor arguments `limit`, `step`,
+    `total` as self.<name>; Window/Ramp/Mask use the same names as local variables, Hold as an attribute assigned only in clock(),
+    Ramp as constant-initialised state) — same oracle: the text of each must not depend on which other classes were transpiled before."""
     import subprocess, itertools, py4hw
     import vsim
-    variants = sorted(DS.SAMENAME)
     W = 8
     env = dict(os.environ, PYTHONPATH=REPO + os.pathsep + os.path.join(VERIF, 'harness'), MPLBACKEND='Agg')
     procs = {v: subprocess.Popen([sys.executable, os.path.join(VERIF, 'harness', 'c19_designs.py'), v, str(W)], env=env,
@@ -875,18 +882,18 @@ def same_name_classes(res, rng, tier):
     for v, p in procs.items():
         out, err = p.communicate(timeout=300)
         if p.returncode != 0:
-            raise ToolFailure(f'reference interpreter for Stage/{v} failed: {err[-300:]}')
+            raise ToolFailure(f'reference interpreter for {v} failed: {err[-300:]}')
         ref[v] = json.loads(out.strip().split('\n')[-1])
-    for a, b in DS.SAMENAME_EQUAL:
-        res.count(('samename-control', a, b))
+    for a, b in equal:
+        res.count(('samename-control', fam, a, b))
         if ref[a] != ref[b]:
-            fail_or_known(res, f'identical-source classes Stage/{a} and Stage/{b} give different text even in fresh interpreters',
-                          dict(via='same-name classes', control=[a, b], text_a=ref[a]['mod'][:300], text_b=ref[b]['mod'][:300]))
+            fail_or_known(res, f'identical-source classes {a} and {b} give different text even in fresh interpreters',
+                          dict(via=fam, control=[a, b], text_a=ref[a]['mod'][:300], text_b=ref[b]['mod'][:300]))
     perms = list(itertools.permutations(variants))
-    r2 = rng.fork('samename')
+    r2 = rng.fork(('samename', fam))
     orders = [tuple(variants), tuple(reversed(variants))] + [tuple(r2.shuffle(variants)) for _ in range(2 if tier == 'quick' else 30)]
     if tier != 'quick':
-        orders += perms
+        orders += perms if len(perms) <= 120 else [perms[i] for i in range(0, len(perms), 5)]
     first_texts = {}
     for k, order in enumerate(orders):
         mode = ['fresh', 'shared', 'interleaved'][k % 3]
@@ -896,11 +903,11 @@ def same_name_classes(res, rng, tier):
         for pos, v in enumerate(seq):
             got = DS.samename_texts(ds[v], shared if mode != 'fresh' else None)
             first_texts.setdefault(v, (got['raw_hier'], ds[v]))
-            res.count(('samename', k, pos, v), hist={'samename_mode': mode})
+            res.count(('samename', fam, k, pos, v), hist={'samename_mode': mode, 'class_family': fam})
             for what in ('hier', 'mod'):
                 if got[what] != ref[v][what]:
-                    fail_or_known(res, f'text of circuit Stage/{v} generated after {list(seq[:pos])} in one process differs from its text in a fresh interpreter',
-                                  dict(via='same-name classes', order=list(seq), position=pos, variant=v, generator=mode, request=what,
+                    fail_or_known(res, f'text of circuit {v!r} ({fam}) generated after {list(seq[:pos])} in one process differs from its text in a fresh interpreter',
+                                  dict(via=fam, order=list(seq), position=pos, variant=v, generator=mode, request=what,
                                        fresh_interpreter=ref[v][what][-400:], this_process=got[what][-400:],
                                        rerun='harness/c19_designs.py <variant> 8 prints the reference'))
                     break
@@ -931,8 +938,8 @@ def same_name_classes(res, rng, tier):
             res.hist('samename_threeway', 'compared' if known else 'all-x')
             bad = [(i, x, y) for i, x, y in known if x != y]
             if bad:
-                fail_or_known(res, f'text generated for circuit Stage/{v} does not behave like that circuit: cycle {bad[0][0]} verilog r={bad[0][1]} simulator r={bad[0][2]}',
-                              dict(via='same-name classes', variant=v, request='behaviour', inputs=hist, verilog=vt, simulator=tr))
+                fail_or_known(res, f'text generated for circuit {v!r} ({fam}) does not behave like that circuit: cycle {bad[0][0]} verilog r={bad[0][1]} simulator r={bad[0][2]}',
+                              dict(via=fam, variant=v, request='behaviour', inputs=hist, verilog=vt, simulator=tr))
     except ToolFailure as e:
         res.broken.append(('correspondence', 'samename-threeway', str(e)[:300]))
 
@@ -945,11 +952,11 @@ def main(res, tier, rng, replay):
     kws = L.keywords()
     res.hist('keywords', 'count', len(kws))
     static_scan(res)
-    # --- known-finding witnesses first
+    # --- families of behavioural classes (same class name / shared identifier names), BEFORE anything else is transpiled here
+    class_families(res, rng, tier)
+    # --- known-finding witnesses
     witness_platform_build(res)
     witness_live_attr(res)
-    # --- same-named behavioural classes, BEFORE anything else is transpiled in this process
-    same_name_classes(res, rng, tier)
     # --- seeded scenarios
     n = 45 if tier == 'quick' else 700
     scs = []
